@@ -126,7 +126,11 @@ func cgYAML(c cgCase) string {
 	for i, o := range c.objs {
 		q := i%3 == 2
 		fmt.Fprintf(&b, "                %s:\n", cgScalar(o.name, q))
-		fmt.Fprintf(&b, "                    id: %s\n", cgScalar(o.name, q))
+		// the object's name is its key in the objects map; the redundant id attribute is left
+		// out for some objects (gen.go must not depend on it)
+		if i%5 != 4 {
+			fmt.Fprintf(&b, "                    id: %s\n", cgScalar(o.name, q))
+		}
 		if len(o.props) == 0 {
 			if len(o.name)%2 == 0 {
 				b.WriteString("                    properties: {}\n")
@@ -246,7 +250,16 @@ func runCodegen(p *sx.Node) *sx.Node {
 	outPath := filepath.Join(dir, "typedef_output.go")
 	var first []byte
 	for i := 0; i < cgRuns; i++ {
-		os.Remove(outPath)
+		// run 0 starts from an empty directory; run 1 regenerates over its own previous output;
+		// run 2 regenerates over a LONGER stale file (what is left after the schema shrank):
+		// the output must be the same bytes every time
+		switch i {
+		case 0:
+			os.Remove(outPath)
+		case 2:
+			stale := append(append([]byte{}, first...), []byte("\n// stale tail of an earlier, longer output\ntype StaleLeftOver struct {\n\tA int64 `json:\"a\"`\n}\n")...)
+			_ = os.WriteFile(outPath, stale, 0o644)
+		}
 		ctx, cancel := context.WithTimeout(context.Background(), cgRunTimeout)
 		cmd := exec.CommandContext(ctx, bin, args...)
 		cmd.Dir = dir
